@@ -719,7 +719,8 @@ func histConform(r *rep.R, prop string, cfg histCfg, bound int, idx *int64) {
 		// in-memory exploration (where the model fixes the order)
 		Filter: func(x *env.Chooser, i, alt int) bool {
 			n := x.Points[i].Menu[alt]
-			return n != "context-expires" && !strings.Contains(n, "context-ends")
+			// (and a socket error cannot be provoked on a loopback socket at will)
+			return n != "context-expires" && !strings.Contains(n, "context-ends") && !strings.HasPrefix(n, "socket-error")
 		},
 	}
 	e.Check = func(ch *env.Chooser, obs any) {
